@@ -340,6 +340,71 @@ def insertM (s : St) (p : Pt) (d : Nat) (hint : Nat) : Option (St × Nat) :=
     | some (.onVertex v) => some ({ s with data := s.data.setIfInBounds v d }, v)
     | some .noTri => none
 
+/-! ### side conditions of the hull-closing steps
+
+`create_single_face_between_edge_and_next` keeps the link structure consistent only if the outer
+boundary it closes is not a two-edge cycle and the two closed edges do not start and end at the
+same vertex.  In a triangulation this follows from the geometry (a point outside the convex hull
+cannot see the whole boundary); the proofs in `Spade/Proofs/LinkInv` assume it explicitly, and
+the driver evaluates it on every insertion it compares (clause `insert-model-side-condition`). -/
+
+def singleFaceOK (s : St) (e : Nat) : Bool :=
+  decide (e < s.nE) && decide (s.fc e = 0) && decide (s.nxt (s.nxt e) ≠ e) &&
+  decide (s.org e ≠ s.org (s.rv (s.nxt e)))
+
+def ccwWalkOK (p : Pt) : Nat → St → Nat → Bool
+  | 0, _, _ => true
+  | fuel + 1, s, cur =>
+    let prev := s.prv cur
+    if 0 < s.sq p prev then
+      s.singleFaceOK prev &&
+        ccwWalkOK p fuel ((s.createSingleFaceBetweenEdgeAndNext prev).1.legalizeEdge prev false)
+          (s.createSingleFaceBetweenEdgeAndNext prev).2
+    else true
+
+def cwWalkOK (p : Pt) : Nat → St → Nat → Bool
+  | 0, _, _ => true
+  | fuel + 1, s, cur =>
+    let next := s.nxt cur
+    if 0 < s.sq p next then
+      s.singleFaceOK cur &&
+        cwWalkOK p fuel ((s.createSingleFaceBetweenEdgeAndNext cur).1.legalizeEdge next false)
+          (s.createSingleFaceBetweenEdgeAndNext cur).2
+    else true
+
+def outsideOK (s : St) (hullEdge : Nat) (p : Pt) (d : Nat) : Bool :=
+  decide (hullEdge < s.nE) && decide (s.fc hullEdge = 0) &&
+  (let s1 := (s.createNewFaceAdjacentToEdge hullEdge p d).1
+   let ccwStart := s1.rv (s1.prv hullEdge)
+   let cwStart := s1.rv (s1.nxt hullEdge)
+   let s2 := s1.legalizeEdge hullEdge false
+   ccwWalkOK p (s2.nE + 4) s2 ccwStart &&
+   (let s3 := ccwWalk p (s2.nE + 4) s2 ccwStart
+    cwWalkOK p (s3.nE + 4) s3 cwStart))
+
+/-- `extend_line` is only sound at an end vertex of the chain: its out-edge is its only one
+(the predecessor of the out-edge is its own twin) -/
+def extendOK (s : St) (v : Nat) : Bool :=
+  let oe := (s.vOut.getD v none).getD 0
+  decide (oe < s.nE) && decide (s.prv oe = s.rv oe) && decide (s.org oe = v)
+
+/-- the side condition of a whole insertion: interior insertions (face, edge, vertex) have none;
+an insertion outside of the convex hull needs `outsideOK`; in the degenerate (collinear) state
+the chain operations need the edge / end vertex found by the sorted search to be what they are
+meant to be -/
+def insertSideOK (s : St) (p : Pt) (d : Nat) (hint : Nat) : Bool :=
+  if s.nV < 2 then true
+  else if s.nF = 1 then
+    match s.locateOnLine p with
+    | .onEdge e => decide (e < s.nE)
+    | .onVertex _ => true
+    | .notOnLine e => s.outsideOK e p d
+    | .extending v => s.extendOK v
+  else
+    match s.locateM p hint with
+    | some (.outside e) => s.outsideOK e p d
+    | _ => true
+
 /-- comparison of the model state with a dump: links, anchors, positions and payload -/
 def sameStructure (a b : St) : Bool :=
   a.pos == b.pos && a.data == b.data && a.vOut == b.vOut && a.fAdj == b.fAdj &&
